@@ -2998,3 +2998,77 @@ def rule_configuration_is_fixed(ctx, rep: Report, rid="R11", classes=("PybindWra
                     f"self.{attr} comes from a constructor argument and is changed again in {hits.get(attr)}: later calls on the same wrapper object "
                     f"generate for another configuration than the one it was built with", f"{ci.mod.rel}:{cfg[attr].lineno}")
     rep.units["configuration_attributes"] = total
+
+
+# ------------------------------------------------------------------------------------------ L8 tabs are not expanded before a verbatim copy
+def rule_parser_keeps_tabs(ctx, rep: Report, rid="L8"):
+    """pyparsing's parseString first replaces every tab by blanks up to the next tab stop - unless the expression it is called on
+    was told `parseWithTabs()`.  The grammar copies default values verbatim (originalTextFor), so with the expansion a tab inside
+    a default value turns into a number of blanks that depends on the column the value starts in: two files that differ in
+    indentation only then give different default texts (and different generated code).  Checked at the entry point
+    (Module.parseString): the expression whose parseString it calls is configured with parseWithTabs - in its class body, in its
+    defining expression, or in the call chain itself - as long as the grammar has a verbatim-copying element."""
+    prog = ctx.prog
+    verb = []
+    for mi in prog.modules.values():
+        if mi.rel.startswith("gtwrap/interface_parser/"):
+            verb += [c for c in ast.walk(mi.tree) if isinstance(c, ast.Call) and (dotted(c.func) or "").split(".")[-1] in ("originalTextFor", "original_text_for")]
+    mod_ci = prog.cls("Module")
+    entry = mod_ci.methods.get("parseString") or mod_ci.methods.get("parse_string")
+    if entry is None:
+        raise AnalysisError(f"{rep.prop}/{rid}: Module.parseString not found")
+    calls = [c for c in walk_no_nested(entry) if isinstance(c, ast.Call) and isinstance(c.func, ast.Attribute) and c.func.attr in ("parseString", "parse_string")]
+    if not calls:
+        raise AnalysisError(f"{rep.prop}/{rid}: no parse call in Module.parseString")
+    KEEP = ("parseWithTabs", "parse_with_tabs")
+
+    SELF_RETURNING = ("ignore", "setParseAction", "set_parse_action", "setName", "set_name", "leaveWhitespace", "setDebug", "addParseAction",
+                      "add_parse_action", "setWhitespaceChars") + KEEP
+
+    def chain_keeps(e, allow_copy=False) -> bool:
+        """`e` is a chain of method calls on some base expression.  In front of the parse call (allow_copy) the chain's *result* is
+        parsed with: parseWithTabs anywhere in it counts, as long as what follows it hands the same settings on (self-returning
+        methods, copy(), a results name).  As a statement of its own the chain configures its *base*: every method between the base
+        and parseWithTabs has to return the expression itself (a copy() in between configures the copy)."""
+        attrs = []
+        while isinstance(e, ast.Call) and isinstance(e.func, ast.Attribute):
+            attrs.append(e.func.attr)                     # outermost first
+            e = e.func.value
+        if not any(a in KEEP for a in attrs):
+            return False
+        k = max(i_ for i_, a in enumerate(attrs) if a in KEEP) if not allow_copy else min(i_ for i_, a in enumerate(attrs) if a in KEEP)
+        if allow_copy:
+            return all(a in SELF_RETURNING or a in ("copy", "setResultsName", "set_results_name") for a in attrs[:k])
+        return all(a in SELF_RETURNING for a in attrs[k + 1:])
+    for c in calls:
+        recv = c.func.value
+        ok = chain_keeps(recv, allow_copy=True)
+        d = dotted(recv) or ""
+        parts = d.split(".")
+        if not ok and len(parts) == 2:
+            try:
+                owner = prog.cls(parts[0])
+            except Exception:
+                owner = None
+            if owner is not None:
+                attr = parts[1]
+                # configured in the class body:  rule.parseWithTabs()   /   rule = (...).parseWithTabs()
+                for st in owner.node.body:
+                    if isinstance(st, ast.Expr) and chain_keeps(st.value):
+                        base = st.value
+                        while isinstance(base, ast.Call) and isinstance(base.func, ast.Attribute):
+                            base = base.func.value       # rule.ignore(..).parseWithTabs(): the methods of the chain return the expression itself
+                        if isinstance(base, ast.Name) and base.id == attr:
+                            ok = True
+                if attr in owner.attrs and chain_keeps(owner.attrs[attr]):
+                    ok = True
+                # or anywhere in the module:  Module.rule.parseWithTabs()
+                for x in ast.walk(owner.mod.tree):
+                    if isinstance(x, ast.Call) and isinstance(x.func, ast.Attribute) and x.func.attr in KEEP and dotted(x.func.value) == d:
+                        ok = True
+        rep.add(rid, "Module.parseString:tabs reach the grammar as written (parseWithTabs), not expanded to a column-dependent number of blanks",
+                ok or not verb,
+                f"`{unparse(c)[:60]}` expands tabs first and the grammar copies text verbatim at {len(verb)} place(s) (originalTextFor): `f(int x = g(1,<TAB>2))` "
+                f"gives the default `g(1,   2)` or `g(1,       2)` depending on how far the line is indented - a change of layout between other tokens "
+                f"changes the parse result and the generated code", f"{mod_ci.mod.rel}:{c.lineno}")
+    rep.units["verbatim_copy_sites"] = len(verb)
